@@ -55,6 +55,25 @@ CLAIMED = {
             "generator position); for all 13 stream strategies update must accept what query returned, indices must be "
             "strictly increasing in range and utilities have one entry per candidate.",
             "DESIGN.md 5 (C10)", TRUST),
+    "C01": ("TLA+ modules PoolQuery (validate/transform/score/pick pipeline) and Selection model-checked by TLC; "
+            "TLC-generated pool scenarios (PoolGen) replayed into every registered pool strategy configuration; every "
+            "call validated as a PoolTrace behaviour by TLC",
+            "TLC checks that the reference pipeline returns exactly min(batch_size, #candidates) distinct candidate ids "
+            "for all labeled sets, candidate modes/subsets, batch sizes and adversarial tied scorings (N<=3/4); every "
+            "exported pool strategy (x methods, two model variants) is then executed on a seeded sample of the "
+            "TLC-enumerated scenarios (all labeled sets of pools of 2-5 samples, None / index subsets / arbitrary index "
+            "sets / feature rows, batch sizes up to #candidates+1, duplicated and identical points, cold start) and each "
+            "result is validated event by event by TLC (1-D integer array, count, distinctness, membership in the "
+            "candidate set, termination under a watchdog).",
+            "DESIGN.md 5 (C01)", TRUST),
+    "C02": ("same modules and scenario generator as C01; PoolTrace Step events carry every utility row as "
+            "sign-preserving ranks and TLC checks the row clauses",
+            "For every recorded query with return_utilities=True TLC checks: one row per selected sample, row width = "
+            "len(X) or number of candidate rows, NaN exactly at non-candidates and at samples chosen in earlier steps, a "
+            "number at the chosen sample, which attains the row maximum (maximising strategies; exact float order, any "
+            "tie allowed) or has strictly positive mass (sampling strategies). The same relation is model-checked on "
+            "PoolQuery/Selection for all tie patterns in the small scope.",
+            "DESIGN.md 5 (C02)", TRUST),
 }
 
 NOT_YET = {}
